@@ -80,7 +80,7 @@ pub fn build(rec: &Value) -> Built {
             if conv.starts_with("extract") { "extract" } else { "compute" }, if conv.ends_with("pop") { "price_of_primary" } else { "price_of_secondary" }));
     }
     let mut csv = String::new();
-    for i in 0..skip { csv.push_str(&format!("Account statement line {}\n", i + 1)); }
+    for h in rec["head"].as_array().unwrap() { csv.push_str(h.as_str().unwrap()); csv.push('\n'); }
     csv.push_str(&cols.iter().map(|(l, _)| cell(l, delim)).collect::<Vec<_>>().join(&delim.to_string()));
     csv.push('\n');
     let running = rec["running"].as_array().unwrap();
